@@ -209,3 +209,7 @@ def replay(d):
     res = run('quick', 0, 1)
     hit = [v for v in res.violations if v.key == d.get('key')]
     return bool(hit), hit[0].message if hit else 'not reproduced'
+
+
+from ..conc import driver as _conc  # noqa: E402
+_conc.wrap(globals(), 'C15')
